@@ -37,6 +37,42 @@ OpPrependPtrN(sl, k, t)  == /\ Live(sl) /\ k >= 0 /\ Mut(sl, "prepend_from_ptr_n
 OpAppendObjN(sl, k)      == /\ Live(sl) /\ k >= 0 /\ HasOther(sl) /\ Mut(sl, "append_n", <<k>>, TRUE, Txt(sl) \o RepT(Other(sl), k))
 OpPrependObjN(sl, k)     == /\ Live(sl) /\ k >= 0 /\ HasOther(sl) /\ Mut(sl, "prepend_n", <<k>>, TRUE, RepT(Other(sl), k) \o Txt(sl))
 
+\* Extreme integer arguments (operations "<op>_x").  TLC's integers are 32-bit and an index or count of the API is 64-bit, so an
+\* argument travels as a record [dec |-> its decimal numeral (the harness passes exactly that value), w, v]: w = 0 and v = the value
+\* when |value| < 2^30, otherwise w = 1 / -1 = "huge positive / negative".  Every text here is shorter than 2^28, so the reference
+\* operators cannot distinguish two huge values of the same sign: the value 2^30 (resp. -2^30) stands for all of them.
+\* (S: positions outside the text are refused; C: an over-long substr count is clamped, a compare count >= both lengths compares all.)
+HugeRep == 1073741824
+XV(x) == IF x.w = 0 THEN x.v ELSE x.w * HugeRep
+XOK(sl, xs) == /\ Live(sl) /\ Len(Txt(sl)) < 268435456
+               /\ \A k \in 1 .. Len(xs) : xs[k].w \in {-1, 0, 1} /\ (xs[k].w = 0 => (xs[k].v < HugeRep /\ xs[k].v > 0 - HugeRep))
+OpSubstrX(sl, xi, xc)      == /\ XOK(sl, <<xi, xc>>) /\ Qry(sl, "substr_x", <<xi, xc>>, SubstrRes(Txt(sl), XV(xi), XV(xc)))
+OpSubstrToPtrX(sl, xi, xc) == /\ XOK(sl, <<xi, xc>>) /\ Qry(sl, "substr_to_ptr_x", <<xi, xc>>, SubstrRes(Txt(sl), XV(xi), XV(xc)))
+SpliceX(sl, op, args, xi, xc, t) ==
+    LET r == SpliceRes(Txt(sl), XV(xi), XV(xc), t) IN
+    /\ XOK(sl, <<xi, xc>>) /\ SpliceCntDefined(Txt(sl), XV(xi), XV(xc)) = TRUE
+    /\ Mut(sl, op, args, r.ok, r.s)
+OpSplicePtrX(sl, xi, xc, t)  == /\ Live(sl) /\ SpliceX(sl, "splice_from_ptr_x", <<xi, xc, t>>, xi, xc, t)
+OpSplicePtrNullX(sl, xi, xc) == /\ Live(sl) /\ SpliceX(sl, "splice_from_ptr_null_x", <<xi, xc>>, xi, xc, <<>>)
+OpSpliceObjX(sl, xi, xc)     == /\ Live(sl) /\ SpliceX(sl, "splice_x", <<xi, xc>>, xi, xc, IF HasOther(sl) THEN Other(sl) ELSE <<>>)
+OpSpliceSelfX(sl, xi, xc)    == /\ Live(sl) /\ SpliceX(sl, "splice_self_x", <<xi, xc>>, xi, xc, Txt(sl))
+\* the counted comparisons: X for negative counts (8a), any count >= 0 however large is "the first n characters"
+OpCmpPtrX(sl, kind, t, xn)  == /\ XOK(sl, <<xn>>) /\ XV(xn) >= 0 /\ kind \in {"ncmp", "ncasecmp"}
+                               /\ Qry(sl, kind \o "_with_ptr_x", <<t, xn>>, CmpKind(kind, Txt(sl), t, XV(xn)))
+OpCmpObjX(sl, kind, xn)     == /\ XOK(sl, <<xn>>) /\ XV(xn) >= 0 /\ kind \in {"ncmp", "ncasecmp"}
+                               /\ Qry(sl, kind \o "_x", <<xn>>, IF HasOther(sl) THEN CmpKind(kind, Txt(sl), Other(sl), XV(xn)) ELSE 1)
+OpCmpSelfX(sl, kind, xn)    == /\ XOK(sl, <<xn>>) /\ XV(xn) >= 0 /\ kind \in {"ncmp", "ncasecmp"} /\ Qry(sl, kind \o "_self_x", <<xn>>, 0)
+OpCmpPtrNullX(sl, kind, xn) == /\ XOK(sl, <<xn>>) /\ XV(xn) >= 0 /\ kind \in {"ncmp", "ncasecmp"} /\ Qry(sl, kind \o "_with_ptr_null_x", <<xn>>, 1)
+\* numbers beyond 32 bits are given as a sign and three decimal limbs hi, mi, lo < 10^9: +-((hi * 10^9 + mi) * 10^9 + lo)
+Pad9(n) == LET d == DecDigits(n) IN [k \in 1 .. (9 - Len(d)) |-> 48] \o d
+BigNumText(neg, hi, mi, lo) ==
+    (IF neg /\ (hi > 0 \/ mi > 0 \/ lo > 0) THEN <<45>> ELSE <<>>)
+    \o (IF hi > 0 THEN DecDigits(hi) \o Pad9(mi) \o Pad9(lo) ELSE IF mi > 0 THEN DecDigits(mi) \o Pad9(lo) ELSE DecDigits(lo))
+LimbsOK(hi, mi, lo) == hi \in 0 .. 999999999 /\ mi \in 0 .. 999999999 /\ lo \in 0 .. 999999999
+OpNewFromNumX(sl, re, neg, hi, mi, lo) == /\ sl \in Slots /\ LimbsOK(hi, mi, lo)
+                                       /\ Ctor(sl, re, "_from_num_x", <<neg, hi, mi, lo>>, BigNumText(neg, hi, mi, lo))
+OpSprintfDX(sl, neg, hi, mi, lo) == /\ Live(sl) /\ LimbsOK(hi, mi, lo) /\ Mut(sl, "sprintf_d_x", <<neg, hi, mi, lo>>, TRUE, BigNumText(neg, hi, mi, lo))
+
 CtorStep(sl, o, re, g) ==
     \/ o = "" /\ OpNew(sl, re)
     \/ o = "_from_ptr" /\ OpNewFromPtr(sl, re, g[1])
@@ -49,6 +85,7 @@ CtorStep(sl, o, re, g) ==
     \/ o = "_from_fp_gen" /\ OpNewFromFpGen(sl, re, g[1], g[2], g[3])
     \/ o = "_from_fd_gen" /\ OpNewFromFdGen(sl, re, g[1], g[2], g[3])
     \/ o = "_from_buff_gen" /\ OpNewFromBuffGen(sl, re, g[1], g[2])
+    \/ o = "_from_num_x" /\ OpNewFromNumX(sl, re, g[1], g[2], g[3], g[4])
 
 TraceInit == Init /\ l = 1
 TraceStep ==
@@ -57,7 +94,7 @@ TraceStep ==
     /\ LET sl == ev.sl  o == ev.bop  g == ev.args IN
        \/ o = "reset" /\ a' = <<>> /\ al' = FALSE /\ b' = <<>> /\ bl' = FALSE
        \/ \E k \in {"", "_from_ptr", "_from_ptr_null", "_from_buff", "_from_buff_null", "_from_num", "_from_fp", "_from_fd",
-                    "_from_fp_gen", "_from_fd_gen", "_from_buff_gen"} :
+                    "_from_fp_gen", "_from_fd_gen", "_from_buff_gen", "_from_num_x"} :
              \/ o = "new" \o k /\ CtorStep(sl, k, FALSE, g)
              \/ o = "re" \o k /\ CtorStep(sl, k, TRUE, g)
        \/ o = "done" /\ OpDone(sl)
@@ -84,6 +121,18 @@ TraceStep ==
        \/ o = "sprintf_s" /\ OpSprintfS(sl, g[1])
        \/ o = "sprintf_d" /\ OpSprintfD(sl, g[1])
        \/ o = "sprintf_s_gen" /\ OpSprintfSGen(sl, g[1])
+       \/ o = "sprintf_d_x" /\ OpSprintfDX(sl, g[1], g[2], g[3], g[4])
+       \/ o = "substr_x" /\ OpSubstrX(sl, g[1], g[2])
+       \/ o = "substr_to_ptr_x" /\ OpSubstrToPtrX(sl, g[1], g[2])
+       \/ o = "splice_from_ptr_x" /\ OpSplicePtrX(sl, g[1], g[2], g[3])
+       \/ o = "splice_from_ptr_null_x" /\ OpSplicePtrNullX(sl, g[1], g[2])
+       \/ o = "splice_x" /\ OpSpliceObjX(sl, g[1], g[2])
+       \/ o = "splice_self_x" /\ OpSpliceSelfX(sl, g[1], g[2])
+       \/ \E kind \in {"ncmp", "ncasecmp"} :
+             \/ o = kind \o "_with_ptr_x" /\ OpCmpPtrX(sl, kind, g[1], g[2])
+             \/ o = kind \o "_x" /\ OpCmpObjX(sl, kind, g[1])
+             \/ o = kind \o "_self_x" /\ OpCmpSelfX(sl, kind, g[1])
+             \/ o = kind \o "_with_ptr_null_x" /\ OpCmpPtrNullX(sl, kind, g[1])
        \/ o = "append_char_n" /\ OpAppendCharN(sl, g[1], g[2])
        \/ o = "prepend_char_n" /\ OpPrependCharN(sl, g[1], g[2])
        \/ o = "append_from_ptr_n" /\ OpAppendPtrN(sl, g[1], g[2])
